@@ -115,6 +115,19 @@ def run_case(case):
                     vs.append({"clause": "an accepted grid materialises exactly as specified", "detail": f"{desc}: {bad}", "key": "C16:materialise"})
                 elif sample is None:
                     sample = {"call": desc, "to_jax": [float(x) for x in np.asarray(g.to_jax())][:6]}
+                # twin: the other grid class with the *same* start/stop/n_points, materialised in the same process
+                if not bad and isinstance(n, int) and not isinstance(n, bool) and n >= 3 and not isinstance(a, bool) and float(a) > 0:
+                    other = "log" if which == "lin" else "lin"
+                    try:
+                        g2 = (LogspaceGrid if other == "log" else LinspaceGrid)(start=a, stop=b, n_points=n)
+                        bad2 = materialise_check(np, g2, a, b, n, other) or materialise_check(np, g, a, b, n, which)
+                        out["evals"] += 1
+                        out["hist"]["twin_grids"] = out["hist"].get("twin_grids", 0) + 1
+                        if bad2:
+                            vs.append({"clause": "an accepted grid materialises exactly as specified (both grid classes with equal start/stop/n_points in one process)",
+                                       "detail": f"{desc} then {'LogspaceGrid' if other == 'log' else 'LinspaceGrid'} with the same arguments: {bad2}", "key": "C16:twin"})
+                    except GridInitializationError:
+                        pass
         else:
             k = r.randint(0, 4)
             vals = []
